@@ -333,3 +333,167 @@ func (f *Field2) Evaluate(p v2.Vec) float64 {
 
 // BoundingBox implements sdf.SDF2.
 func (f *Field2) BoundingBox() sdf.Box2 { return f.L.BB }
+
+// ---------------------------------------------------------------------------------------------
+// vertex oracle
+
+func nearest(a []float64, stride int, x float64) (idx int, d float64) {
+	n := (len(a) + stride - 1) / stride
+	lo, hi := 0, n-1
+	for lo < hi {
+		m := (lo + hi) / 2
+		if a[m*stride] < x {
+			lo = m + 1
+		} else {
+			hi = m
+		}
+	}
+	idx, d = lo, math.Abs(a[lo*stride]-x)
+	if lo > 0 && math.Abs(a[(lo-1)*stride]-x) < d {
+		idx, d = lo-1, math.Abs(a[(lo-1)*stride]-x)
+	}
+	return
+}
+
+// bracket returns i with corner[i] <= x <= corner[i+1] (clamped).
+func bracket(a []float64, stride int, x float64) int {
+	n := (len(a) + stride - 1) / stride
+	i, _ := nearest(a, stride, x)
+	if a[i*stride] > x {
+		i--
+	}
+	if i < 0 {
+		i = 0
+	}
+	if i > n-2 {
+		i = n - 2
+	}
+	return i
+}
+
+// VertexCheck decides whether mesh vertex p is the linear zero crossing of a lattice edge whose end
+// points straddle zero, for the corner values val.  tol is the geometric tolerance; ftol the tolerance
+// on the linearly interpolated field value at p (covers the renderer's epsilon snapping).
+func (l *Lat3) VertexCheck(p v3.Vec, val func(i, j, k int) float64, tol, ftol float64) (bool, string) {
+	ax := [3][]float64{l.X, l.Y, l.Z}
+	pc := [3]float64{p.X, p.Y, p.Z}
+	var on [3]bool
+	var idx [3]int
+	non := 0
+	for a := 0; a < 3; a++ {
+		i, d := nearest(ax[a], l.Stride, pc[a])
+		idx[a] = i
+		if d <= tol {
+			on[a] = true
+			non++
+		}
+	}
+	at := func(i [3]int) float64 { return val(i[0], i[1], i[2]) }
+	nc := [3]int{}
+	nc[0], nc[1], nc[2] = l.NC()
+	switch {
+	case non == 3:
+		v := at(idx)
+		if math.Abs(v) <= ftol {
+			// must have a straddling neighbour
+			for a := 0; a < 3; a++ {
+				for _, d := range []int{-1, 1} {
+					j := idx
+					j[a] += d
+					if j[a] < 0 || j[a] >= nc[a] {
+						continue
+					}
+					if (at(j) < 0) != (v < 0) {
+						return true, ""
+					}
+				}
+			}
+			return false, fmt.Sprintf("vertex on lattice corner %v (value %g) without a straddling incident edge", idx, v)
+		}
+		return false, fmt.Sprintf("vertex on lattice corner %v whose value is %g", idx, v)
+	case non == 2:
+		a := 0
+		for !(!on[a]) {
+			a++
+		}
+		i0 := idx
+		i0[a] = bracket(ax[a], l.Stride, pc[a])
+		i1 := i0
+		i1[a]++
+		v0, v1 := at(i0), at(i1)
+		if (v0 < 0) == (v1 < 0) {
+			return false, fmt.Sprintf("vertex on lattice edge %v-%v whose end values %g, %g do not straddle zero", i0, i1, v0, v1)
+		}
+		c0, c1 := ax[a][i0[a]*l.Stride], ax[a][i1[a]*l.Stride]
+		s := (pc[a] - c0) / (c1 - c0)
+		flin := v0 + s*(v1-v0)
+		want := c0 + v0/(v0-v1)*(c1-c0)
+		if math.Abs(flin) <= ftol || math.Abs(pc[a]-want) <= tol {
+			return true, ""
+		}
+		return false, fmt.Sprintf("vertex at fraction %g of lattice edge %v-%v with end values %g, %g: interpolated field there is %g (zero crossing is at fraction %g)", s, i0, i1, v0, v1, flin, v0/(v0-v1))
+	}
+	return false, fmt.Sprintf("vertex %v is not on a lattice edge (on-plane axes: %v)", p, on)
+}
+
+// VertexCheck (2D).
+func (l *Lat2) VertexCheck(p v2.Vec, val func(i, j int) float64, tol, ftol float64) (bool, string) {
+	ax := [2][]float64{l.X, l.Y}
+	pc := [2]float64{p.X, p.Y}
+	var on [2]bool
+	var idx [2]int
+	non := 0
+	for a := 0; a < 2; a++ {
+		i, d := nearest(ax[a], l.Stride, pc[a])
+		idx[a] = i
+		if d <= tol {
+			on[a] = true
+			non++
+		}
+	}
+	at := func(i [2]int) float64 { return val(i[0], i[1]) }
+	nc := [2]int{}
+	nc[0], nc[1] = l.NC()
+	switch non {
+	case 2:
+		v := at(idx)
+		if math.Abs(v) <= ftol {
+			for a := 0; a < 2; a++ {
+				for _, d := range []int{-1, 1} {
+					j := idx
+					j[a] += d
+					if j[a] < 0 || j[a] >= nc[a] {
+						continue
+					}
+					if (at(j) < 0) != (v < 0) {
+						return true, ""
+					}
+				}
+			}
+			return false, fmt.Sprintf("end point on lattice corner %v (value %g) without a straddling incident edge", idx, v)
+		}
+		return false, fmt.Sprintf("end point on lattice corner %v whose value is %g", idx, v)
+	case 1:
+		a := 0
+		if on[0] {
+			a = 1
+		}
+		i0 := idx
+		i0[a] = bracket(ax[a], l.Stride, pc[a])
+		i1 := i0
+		i1[a]++
+		v0, v1 := at(i0), at(i1)
+		if (v0 < 0) == (v1 < 0) {
+			return false, fmt.Sprintf("end point on lattice edge %v-%v whose end values %g, %g do not straddle zero", i0, i1, v0, v1)
+		}
+		c0, c1 := ax[a][i0[a]*l.Stride], ax[a][i1[a]*l.Stride]
+		s := (pc[a] - c0) / (c1 - c0)
+		flin := v0 + s*(v1-v0)
+		want := c0 + v0/(v0-v1)*(c1-c0)
+		if math.Abs(flin) <= ftol || math.Abs(pc[a]-want) <= tol {
+			return true, ""
+		}
+		return false, fmt.Sprintf("end point at fraction %g of lattice edge %v-%v with end values %g, %g: interpolated field there is %g", s, i0, i1, v0, v1, flin)
+	}
+	return false, fmt.Sprintf("end point %v is not on a lattice edge", p)
+}
